@@ -19,7 +19,7 @@ COMMON_ASSUMPTIONS = [
     "usize counters are modelled as unbounded N; the 2^64 overflow branches of inc_strong/inc_weak are not in the machine model (gen/CountersProofs.v states what the source does at the limit: inc_strong_at_the_limit)",
 ]
 
-CORE = ["corpus", "bfs_c3", "bfs_c2", "shp4", "shp3", "shp5", "rand_cw", "rand_cwf"]
+CORE = ["corpus", "bfs_c3", "bfs_c2", "shp4", "shp3", "shp5", "rand_cw", "rand_cwf", "mult"]
 API = ["bfs_a", "rand_cwa", "rt_cwa"]     # the handle-consuming API inside adoption graphs (make_mut drops a handle too)
 DISC_ONLY = {"C01", "C02", "C03", "C05", "C06"}
 
@@ -50,8 +50,8 @@ PROPS = {
     "C12": dict(statement_status="PROVED: try_unwrap_strict, make_mut_strict (all branches; cannot fault or abort), act_get_mut/into_raw/from_raw/inc_strong/dec_strong, release_links_TblInv (peers unlinked), run_history_inv from any Inv state (later histories). The pointer arithmetic of into_raw/from_raw (Rc and Weak) is translated and proved a round trip for every layout and address (gen/RawPtrProofs.v).", streams=["corpus", "bfs_a", "bfs_n", "rand_cwa", "rand_n", "rt_cwa", "rt_n"],
                 fields={"kind", "tables", "res", "Dset", "freed", "live", "strong", "weak", "obs"},
                 oracles={"C08", "C02", "C01", "fault"}),
-    "C13": dict(statement_status="Full statement REFUTED: C13_refuted (known finding D4: taken-out handle kept alive). PROVED part: drop_strong_inv/step_inv under traced_disc: stale records are harmless unless a trace visits an object carrying one; a dying adoptee purges stale records.", streams=["corpus", "rand_cwe", "rand_cwea", "rand_cwo", "bfs_c2", "bfs_a"], fields={"kind", "Dset", "strong", "tables"},
-                oracles={"C13", "C01", "fault"}),
+    "C13": dict(statement_status="Full statement REFUTED: C13_refuted (known finding D4: taken-out handle kept alive). PROVED part: drop_strong_inv/step_inv under traced_disc: stale records are harmless unless a trace visits an object carrying one; a dying adoptee purges stale records.", streams=["corpus", "rand_cwe", "rand_cwea", "rand_cwo", "bfs_c2", "bfs_a", "mult", "mult_e"], fields={"kind", "Dset", "strong", "tables"},
+                oracles={"C13", "C01", "C02", "fault"}),
     "C14": dict(statement_status="PROVED: drop_unadopted_no_trace, clone_no_trace, tbl_empty_iff (fully unadopted = empty table), noadopt_program_never_traces, drop_strong_fast. Partial by nature: allocation sites of the trace containers are not modelled beyond 'no trace runs'; the harness's allocation counter covers them.", streams=CORE + ["rand_cws"], fields={"kind", "T"}, oracles={"C14"}),
     "C15": dict(statement_status="PROVED: cycle_refs_spec (each object visited once), cycle_refs_total_cost (pops <= 1 + records, visits <= objects, always terminates), closed_group_teardown_bounded (stack <= entry + 5 frames for any group size; linear step count), run_fuel_bound. Partial by nature: native stack bytes and wall time are runtime facts (ring measurements are supporting evidence only).", streams=["corpus", "bfs_c2", "rand_cw"], fields={"kind", "T"}, oracles=set()),
     "C16": dict(statement_status="PROVED: clone_dead_aborts, incs_dead_aborts, drop_dead_inv (no effect, allocation not yet released), group_inv (all members carry the uninit marker before any destructor runs), inv_top_token (a frame-owned handle never targets a released allocation).", streams=["corpus", "rand_cwk"], fields={"kind"}, oracles=set()),
